@@ -93,7 +93,7 @@ func streamHTTP(seed uint64, n int, driver string) (*Summary, error) {
 	queries := []string{"", "q_name=Q&num=5", "q_name=Q&q_name=Q2&one=a&one=b", "q_name=Q&tags%5B%5D=tq1", "zzz=1&f_name=QF&j_name=QJ"}
 	type combo struct {
 		m, ct, body, q string
-		ptr          bool
+		ptr            bool
 	}
 	var combos []combo
 	for _, m := range methods {
